@@ -272,6 +272,9 @@ func c05oracle(cs c05case, r c05result, rng *mrand.Rand) (string, string) {
 			return "accepted-key-that-mismatches-its-commitment", fmt.Sprintf("honest party %d completed although the public key party %d revealed to it does not match the commitment party %d had sent", id, cs.Byz, cs.Byz)
 		}
 	}
+	if who, round, off, bad := d.keyInEarlierMessage(honest); bad {
+		return "key-inside-earlier-message", fmt.Sprintf("honest party %d: bytes %d..%d of the public key it later revealed are contained in a round-%d message it transmitted before it held the commitments of all other participants", who, off, off+32, round)
+	}
 	if who, bad := d.revealBeforeCommitments(honest); bad {
 		return "reveal-before-commitments", fmt.Sprintf("honest party %d disclosed its public key before it held the commitments of all other participants", who)
 	}
@@ -310,7 +313,7 @@ func c05oracle(cs c05case, r c05result, rng *mrand.Rand) (string, string) {
 }
 
 func unitC05(e common.Env, p *common.Part) {
-	p.Rule = "directly wired BLS and PS key generations in which one participant is a real backend behind a wrapper that perturbs what goes in and out: off-polynomial share it receives (consistent commit/reveal), flipped outgoing share (PS: x and each y_j), altered commitment / reveal, copy of an honest party's commitment and key, malformed share (truncated, fewer elements, garbage), duplicates with a changed second copy (share, commitment, reveal), withheld share / commitment / reveal, reveal delivered before the commitment; x every single victim and all honest parties as victims x (n,t) incl. t=n x PRNG delivery order; context cancelled at quiescence (all remaining KeyGens parked on their condition variable, nothing queued); oracle: honest completers report identical public material, >= t honest completers sign jointly under the reported key, no honest reveal before all commitments were received, no panic, no hang; distinct key = (scheme, n, t, Byzantine party, strategy, victims, scalar); non-trivial when the deviation actually reached a victim"
+	p.Rule = "directly wired BLS and PS key generations in which one participant is a real backend behind a wrapper that perturbs what goes in and out: off-polynomial share it receives (consistent commit/reveal), flipped outgoing share (PS: x and each y_j), altered commitment / reveal, copy of an honest party's commitment and key, malformed share (truncated, fewer elements, garbage), duplicates with a changed second copy (share, commitment, reveal), withheld share / commitment / reveal, reveal delivered before the commitment; x every single victim and all honest parties as victims x (n,t) incl. t=n x PRNG delivery order; context cancelled at quiescence (all remaining KeyGens parked on their condition variable, nothing queued); oracle: honest completers report identical public material, >= t honest completers sign jointly under the reported key, no honest reveal before all commitments were received (by message kind, and by content: no 32-byte window of the key a party finally reveals occurs in anything it transmitted earlier), no panic, no hang; distinct key = (scheme, n, t, Byzantine party, strategy, victims, scalar); non-trivial when the deviation actually reached a victim"
 	type nt struct{ n, t int }
 	nts := []nt{{3, 2}, {3, 3}, {4, 2}, {4, 3}, {4, 4}}
 	if e.Thorough() {
